@@ -123,6 +123,7 @@ theorem dropTable_total (slack : Nat → Nat) (s : Pkg) (tabs : List Table) (hF 
     have hXv : s.findTable Gen.nameValidation.toList = some (Catalog.validationTable s.pool.longRefs) := hC.find _ hvt
     obtain ⟨c1, c2, c3⟩ := cond_table_ok s.pool.longRefs name
     unfold dropTail
+    rw [MsiProofs.DeleteValidation.deleteValidation_some s1 name (by rw [findTable_congr ht1, hXv]; rfl)]
     obtain ⟨r2, hI2, hS2, ht2, hl2⟩ := deleteRows_ok slack s1 hI1 hS1 Gen.nameValidation.toList (eqStr "Table" name) _
       (by rw [findTable_congr ht1]; exact hXv) c1
     generalize hg2 : deleteRows s1 Gen.nameValidation.toList (eqStr "Table" name) = x2 at r2 hI2 hS2 ht2 hl2
